@@ -208,3 +208,19 @@ claim("C20", "model_checking", "TLA+ one-step semantics of RV64I+M from the ISA 
       "Trusted: TLC, BV.tla, the harness's encoder. riscv64 integer subset only: riscv32, LoongArch, floating point and CSR instructions are not decided. Nine open known findings "
       "(the emulator has many defects; each is keyed by instruction, register allocation and failure kind).",
       "DESIGN.md section 4 C20")
+
+claim("C11", "model_checking", "TLC trace validation of the reference-counting protocol (WaRCTrace.tla) on events logged from the instrumented output of the real compiler; poison-invariance of the program output",
+      "TLC enumerates loop bodies (WaRCGen.tla: 13 statement templates over structs, linked lists, slices, maps, strings, closures, interfaces, field / element / whole-struct "
+      "overwrites, mass release of one size class; singly and in ordered pairs). Each is compiled by the real compiler; the WAT output is rewritten so that $runtime.HeapAlloc, "
+      "HeapFree, Block.Retain and Block.Release report to host functions (no change to wa-lang/wa), assembled by Wa's assembler and run on the embedded engine. WaRCTrace.tla "
+      "tracks the live blocks and their counts from the events and rejects: an allocation that is null, overlaps a live block or is not zeroed; retain/release on a freed block; "
+      "a free of a block that is not live or whose count the protocol has not brought to zero. Each body is run with every freed payload overwritten with 0xDB at the moment of "
+      "release and without; the outputs must be equal.",
+      "Trusted: TLC, the WAT rewriting (wrappers call the original functions unchanged), the host's reading of sizes and counts from linear memory. Reachability itself is not "
+      "observed - its observable consequences are. Programs with reference cycles are not generated.",
+      "DESIGN.md section 4 C11/C12")
+claim("C12", "model_checking", "TLC trace validation (WaRCTrace.tla): live set reconstructed from allocator/RC events, compared at per-iteration checkpoints",
+      "Same instrumented runs as C11: every body runs in a callee for 6 iterations, the program calls checkpoint(k) after each; TLC reconstructs the set of live blocks from the logged "
+      "alloc/free events and rejects a run in which a checkpoint k >= 3 has more live blocks or more live bytes than checkpoint 2.",
+      "Trusted: as C11. 'For every iteration count' is sampled at 6 iterations (growth is linear when it exists); heap size is measured as live payload bytes, not as the bump pointer.",
+      "DESIGN.md section 4 C11/C12")
